@@ -59,11 +59,14 @@ static int32_t
 _grow_bin_array(struct qb_array * a, size_t new_bin_size)
 {
 	size_t b;
+	void *new_bin;
 
-	a->bin = realloc(a->bin, sizeof(void*) * new_bin_size);
-	if (a->bin == NULL) {
+	/* keep the old table when there is no memory for a larger one */
+	new_bin = realloc(a->bin, sizeof(void*) * new_bin_size);
+	if (new_bin == NULL) {
 		return -ENOMEM;
 	}
+	a->bin = new_bin;
 	for (b = a->num_bins; b < new_bin_size; b++) {
 		a->bin[b] = NULL;
 	}
@@ -230,12 +233,15 @@ qb_array_grow(struct qb_array * a, size_t max_elements)
 		(void)qb_thread_unlock(a->grow_lock);
 		return 0;
 	}
-	a->max_elements = max_elements;
 	b = QB_MIN((max_elements / MAX_ELEMENTS_PER_BIN) + 1, MAX_BINS);
 	if (b > a->num_bins) {
 		if (b >= a->num_bins) {
 			rc = _grow_bin_array(a, b + 1);
 		}
+	}
+	if (rc == 0) {
+		/* only a grow that worked makes the array larger */
+		a->max_elements = max_elements;
 	}
 	(void)qb_thread_unlock(a->grow_lock);
 	return rc;
